@@ -88,8 +88,14 @@ def crossed(draw):
                 prune=games.coin(draw))
 
 
+def slow_cases():
+    for g in games.slow_choice_games():
+        for prune in (True, False):
+            yield dict(game=g, prune=prune)
+
+
 def phases(tier):
-    return [Phase("crossed-objectives", strategy=crossed, examples=(600, 20000)),
+    return [Phase("slow-rewarded-loops", enum=slow_cases, note="values that need 10^3..10^5 sweeps"),Phase("crossed-objectives", strategy=crossed, examples=(600, 20000)),
             Phase("stopping-games-generic-rewards", strategy=lambda: cases(9 if tier == "quick" else 12),
                   examples=(2400, 70000))]
 
@@ -101,7 +107,7 @@ def check_case(case):
     v.cls("prune" if prune else "no_prune")
     facts = GameFacts(game)
     try:
-        if facts.T > T_MAX:
+        if facts.too_slow:
             v.inconclusive = "T>300"
             return v
     except OracleError as e:
